@@ -943,6 +943,29 @@ func directed(tier string) []any {
 			}
 		}
 	}
+	// clone where the lane buffer has just been handed over (8192 + k*lanes*8192 bytes absorbed) and nearby,
+	// both objects absorb different data afterwards; and a second message after a long first one and a Reset
+	for _, lanes := range []int{1, 2, 4} {
+		for k := 1; k <= 2; k++ {
+			for _, d := range []int{-1, 0, 1} {
+				total := 8192 + k*lanes*8192 + d
+				for _, piece := range []int{total, 8192} {
+					p := &Plan{Fam: "k12", Param: lanes, Seed: uint64(total + 3)}
+					for left := total; left > 0; left -= piece {
+						n := piece
+						if n > left {
+							n = left
+						}
+						p.Ops = append(p.Ops, Op{K: "write", N: n})
+					}
+					q := *p
+					q.Ops = append(append([]Op{}, p.Ops...), Op{K: "reset"}, Op{K: "write", N: 17 * (1 + d)}, Op{K: "read", N: 64})
+					p.Ops = append(p.Ops, Op{K: "clone"}, Op{K: "write", N: 100}, Op{K: "write", Obj: 1, N: 100}, Op{K: "read", N: 40}, Op{K: "read", Obj: 1, N: 40})
+					out = append(out, p, &q)
+				}
+			}
+		}
+	}
 	return out
 }
 
@@ -951,7 +974,7 @@ func main() {
 		ID:    "C15",
 		Level: "exploration",
 		Rule: "seeded histories over long-lived objects: SHA3-224/256/384/512, SHAKE128/256, TurboSHAKE128/256 (D in 1..0x7f) through an overlay shim on internal/sha3; xof.XOF for all five ids; K12 with lanes 1/2/4 and customisation strings; expander XMD/XOF objects reused across calls with DST lengths around 255; keccakf1600 StateX2/X4 vs the scalar permutation per lane; Ascon-128/128a/80pq cipher objects reused across Seal/Open with dst prefixes, in-place operation and single-bit tamper faults. " +
-			"Histories are 2..14 ops of Write(chunk)/Read(n)/Sum/Clone/Reset with chunk and read sizes biased to 0, 1, rate-1, rate, rate+1, 8191..8193, k*8192+-1 (k<=9), lanes*8192+-1; directed K12 corner lengths x piece sizes x lanes. non-trivial = a chunking/history/tamper fault fired; distinct = distinct abstract trace",
+			"Histories are 2..14 ops of Write(chunk)/Read(n)/Sum/Clone/Reset with chunk and read sizes biased to 0, 1, rate-1, rate, rate+1, 8191..8193, k*8192+-1 (k<=9), lanes*8192+-1; directed K12 corner lengths x piece sizes x lanes, clones at 8192+k*lanes*8192(+-1) continued with different data on both objects, a second message after a long one and Reset. non-trivial = a chunking/history/tamper fault fired; distinct = distinct abstract trace",
 		Assumptions: []string{
 			"reference models (refmodel/keccak, h2c, asconref) are pinned at start-up to x/crypto/sha3, the RFC 9861 / K12 I-D vectors, the RFC 9380 appendix K vectors and the LWC Ascon KAT files (3 x 1089 vectors)",
 			"BLAKE2X reference is x/crypto/blake2b|blake2s one-shot (circl wraps the same library: only the wrapper is tested)",
